@@ -56,7 +56,22 @@ func genProcJob(g gen) ProcJob {
 		shape = append(shape, "ignore-int")
 	}
 	j := ProcJob{Procs: 1}
-	switch g.n(8) {
+	switch g.n(10) {
+	case 8: // a line whose shell leaves a background process behind and exits; the cancel comes during the next line
+		j.Script = []string{fmt.Sprintf("sh -c '(%s) &'", strings.Replace(body, "sleep 30", "sleep 30 >/dev/null 2>&1 </dev/null", 1)), "sleep 30"}
+		if detached {
+			j.Script[0] = fmt.Sprintf("sh -c '(%s) &'", body)
+		}
+		shape = append(shape, "orphan-of-finished-line", "next-command-running")
+		j.Procs = 2
+	case 9: // the whole task ends at once and leaves a background process behind: the cancel can only land in the
+		// gap between the end of the last task and the completion of the job
+		j.Script = []string{fmt.Sprintf("sh -c '(%s) &'", strings.Replace(body, "sleep 30", "sleep 30 >/dev/null 2>&1 </dev/null", 1))}
+		if detached {
+			j.Script[0] = fmt.Sprintf("sh -c '(%s) &'", body)
+		}
+		shape = append(shape, "orphan-of-finished-task", "cancel-in-completion-gap")
+		j.Procs = 1
 	case 0: // plain foreground command of the task
 		if ignore {
 			j.Script = []string{fmt.Sprintf("sh -c '%s'", body)}
@@ -105,6 +120,9 @@ func generateProc(seed uint64) *Scenario {
 		j := genProcJob(g)
 		j.Cancel = i == 0 || g.p(500)
 		j.CancelAfterMs = g.oneOf(0, 5, 50, 150, 300)
+		if strings.Contains(j.Shape, "cancel-in-completion-gap") {
+			j.CancelAfterMs = g.oneOf(0, 5, 20) // the job completes within one scheduler poll (50 ms) of its task's end
+		}
 		ps.Jobs = append(ps.Jobs, j)
 	}
 	ps.ForcedShutdown = g.p(150)
@@ -251,6 +269,7 @@ func (r *procRun) once(attempt int) []Violation {
 		return
 	}
 	var cancelAt [8]time.Time
+	var cancelRefused [8]bool
 	if r.ps.ForcedShutdown {
 		for i := range r.ps.Jobs {
 			cancelAt[i] = time.Now()
@@ -267,12 +286,18 @@ func (r *procRun) once(attempt int) []Violation {
 			cancelAt[i] = time.Now()
 			if err := runner.CancelJob(jobs[i].ID); err != nil {
 				r.logf("cancel of job %d refused: %v", i, err)
+				cancelRefused[i] = true
 			}
 			r.stats.Faults["cancel_of_running_process_tree"]++
 		}
 	}
 	for i, j := range r.ps.Jobs {
 		if !j.Cancel && !r.ps.ForcedShutdown {
+			continue
+		}
+		if cancelRefused[i] {
+			// the job had ended by itself before the cancel arrived: it is not a canceled job, the statement does not apply
+			r.stats.Probes["cancel_came_too_late"]++
 			continue
 		}
 		// until the job is reported finished
